@@ -323,6 +323,10 @@ pub fn convert_once(case: &Case) -> Result<(Vec<(String, Vec<i16>)>, String), St
                 top.elems.push(GdsElement::GdsStructRef(GdsStructRef { name: n.to_string(), xy: GdsPoint::new(7 + li as i32, 8), strans: Some(GdsStrans { reflected: li == 0, angle: Some(90.0 * li as f64), ..Default::default() }), ..Default::default() }));
             }
             top.elems.push(GdsElement::GdsArrayRef(GdsArrayRef { name: "leafA".into(), xy: [GdsPoint::new(0, 0), GdsPoint::new(400, 0), GdsPoint::new(0, 90)], cols: 2, rows: 3, ..Default::default() }));
+            // arrays of two more cells (and of the first one again), in an order that is neither alphabetical nor the listing order
+            for (k, n) in ["leafC", "leafA", "leafB"].iter().enumerate() {
+                top.elems.push(GdsElement::GdsArrayRef(GdsArrayRef { name: n.to_string(), xy: [GdsPoint::new(0, 500 + 100 * k as i32), GdsPoint::new(200, 500 + 100 * k as i32), GdsPoint::new(0, 560 + 100 * k as i32)], cols: 2, rows: 2, ..Default::default() }));
+            }
             if case.two_cells {
                 // top-cell-first listing
                 g.structs.push(top);
